@@ -176,7 +176,7 @@ def st_int():
     return st.one_of(big, near_pow, digits, small).map(lambda n: {"n": n})
 
 
-FOREIGN = "01IOl-_ .\t\néа中{}+/=~"
+FOREIGN = "01IOl-_ .\t\néа中{}+/=~" + "٣２५𝟗²③\u0669\uff21\uff41\x7f\x80\u0131"
 
 
 def st_str():
